@@ -141,3 +141,19 @@ K long k_set_difference(T* a, int n, T* b, int m, T* d) { return raw(etl::set_di
 K long k_set_intersection(T* a, int n, T* b, int m, T* d) { return raw(etl::set_intersection(I0(a), I0(a + n), I1(b), I1(b + m), O(d) COMMA_C)) - d; }
 K long k_set_symmetric_difference(T* a, int n, T* b, int m, T* d) { return raw(etl::set_symmetric_difference(I0(a), I0(a + n), I1(b), I1(b + m), O(d) COMMA_C)) - d; }
 K long k_set_union(T* a, int n, T* b, int m, T* d) { return raw(etl::set_union(I0(a), I0(a + n), I1(b), I1(b + m), O(d) COMMA_C)) - d; }
+
+// ---- iterator adaptors named in the property anchors, driven through algorithms (pointer configuration only)
+#if IT == 0
+struct sink { // minimal push_back container over a caller-provided buffer
+    using value_type = T;
+    T* d;
+    int n;
+    void push_back(T const& v) { d[n++] = v; }
+};
+K long k_rev_find(T* a, int n, T const* v) { auto r = etl::find(etl::reverse_iterator<T*>(a + n), etl::reverse_iterator<T*>(a), *v); return r.base() - a; }
+K long k_rev_copy(T* a, int n, T* d) { return etl::copy(etl::make_reverse_iterator(a + n), etl::make_reverse_iterator(a), d) - d; }
+K long k_rev_dist(T* a, int n, long k) { auto rb = etl::reverse_iterator<T*>(a + n); auto it = etl::next(rb, k); return (etl::distance(rb, it) << 8) | (it.base() - a); }
+K int k_back_insert_copy_if(T* a, int n, T* d, unsigned pm, int pp) { sink s{d, 0}; etl::copy_if(a, a + n, etl::back_inserter(s), upred{pm, pp}); return s.n; }
+K int k_back_insert_merge(T* a, int n, T* b, int m, T* d) { sink s{d, 0}; etl::merge(a, a + n, b, b + m, etl::back_insert_iterator<sink>(s) COMMA_C); return s.n; }
+K void k_swap(T* x, T* y) { etl::swap(*x, *y); }
+#endif
